@@ -175,7 +175,7 @@ PROPS["C10"] = dict(module="Grenad.Props.C10", streams={"v1": (480, 14400)}, rul
 PROPS["C11"] = dict(module="Grenad.Props.C11", streams={"wio": (640, 19200), "rio": (480, 14400), "sorterio": (480, 14400)},
                     rules={"ops": ["ins", "finish", "sinkstate", "c", "range", "prefix", "file", "sfinish", "sins", "snew"]})
 PROPS["C12"] = dict(module="Grenad.Props.C12", streams={"fault": (64, 1920), "faultbig": (8, 64)},
-                    rules={"ops": ["ins", "finish", "sinkstate", "c", "merge", "mergew", "sins", "!sins", "sfinish", "!sfinish", "snew"]})
+                    rules={"ops": ["ins", "finish", "sinkstate", "c", "merge", "mergew", "sins", "!sins", "sfinish", "!sfinish", "snew", "!merge", "!mergew"]})
 PROPS["C15"] = dict(module="Grenad.Props.C15", streams={"write": (640, 19200), "unsorted": (320, 9600)}, rules={"ops": ["finish", "ins"], "blocks": True})
 PROPS["C16"] = dict(module="Grenad.Props.C16", streams={"cursor": (640, 19200), "seek": (320, 9600), "open": (128, 3840), "big": (4, 144)},
                     rules={"ops": ["c", "open", "file"], "loads": True, "fingerprint": False})
